@@ -183,6 +183,10 @@ class StmtMixin:
             return IterInfo("indexed", n=z3.Length(s), item=lambda i: Val(T.STR, z3.SubString(s, i, 1)), seqval=v)
         if isinstance(t, T.Set):
             return IterInfo("set", set_term=lift(v), elem=t.elem)
+        if isinstance(t, T.Tuple):
+            # a (named) tuple value: fixed length, components by accessor
+            sv = t.sort()
+            return IterInfo("concrete", items=[Val(it, sv.accessor(0, k)(lift(v))) for k, it in enumerate(t.items)])
         if isinstance(t, T.Dict):
             d = t.sort()
             ks = d.keys(lift(v))
